@@ -27,22 +27,10 @@ def units(tier):
     for q in ("_read_bytes", "_read_line", "_parse_rtcm3", "_parse_ubx", "_parse_nmea", "parse", "_do_error", "__next__", "__iter__", "__init__"):
         us += func_units(f"{R}.{q}", tier)
     us += func_units(f"{R}.read", tier)
-    # frames with unknown message numbers are returnable: unknown identities always construct (stub)
-    Mq = "pyrtcm.rtcmmessage.RTCMMessage"
-    us += func_units(Mq + "._get_dict", tier)
-    us += func_units(Mq + ".identity", tier)
-    us += func_units(Mq + "._do_attributes", tier, only=lambda inst: inst["identity"].startswith("unknown"))
-    us += func_units(Mq + ".__init__", tier)
-    # ... and frames with defined message numbers are returnable whenever their payload is complete for the layout: the decode
-    # walk raises only where the reference interpreter R fails (payload too short), the MSM maps raise nothing
-    us += func_units(Mq + "._set_attribute_single", tier)
-    us += func_units(Mq + "._getsatcellmaps", tier)
-    for q in ("_set_attribute", "_set_attribute_group", "_set_attribute_optional"):
-        us += func_units(f"{Mq}.{q}", tier)
-    us += func_units(Mq + "._do_attributes", tier, only=lambda inst: not inst["identity"].startswith("unknown"))
-    from props.common import lemma_unit
-    from spec import msm
-    us.append(lemma_unit("msm.fold_lemmas", msm.fold_lemmas))
+    # frames with unknown message numbers are returnable (stub), and frames with defined message numbers are returnable whenever
+    # their payload is complete for the layout
+    from props.common import decode_path_units
+    us += decode_path_units(tier)
     # socket-backed streams: SocketWrapper refines the stream contract (C11), incl. chunked transfer encoding (C12)
     from props.common import socket_units, ground_unit
     us += socket_units(tier)
